@@ -139,23 +139,32 @@ static int gc_watch(void) {
   if (g_gc_off < 0) g_gc_off = getenv("K2_NOEDIT") != NULL;
   return !g_gc_off && g_quiet_flag_ptr_is_zero();
 }
+static char *g_gc_buf = NULL; static size_t g_gc_cap = 0, g_gc_len = 0;
+static int g_nogc = 0;        /* > 0 while ldb_backup / ldb_copy run: they list the directory after add_files too */
+static void gc_put(const char *fmt, unsigned long long v) {
+  if (g_gc_len + 64 > g_gc_cap) { g_gc_cap = g_gc_cap ? g_gc_cap * 2 : 4096; g_gc_buf = realloc(g_gc_buf, g_gc_cap); }
+  g_gc_len += (size_t)sprintf(g_gc_buf + g_gc_len, fmt, v);
+}
 void __wrap_ldb_versions_add_files(ldb_versions_t *vset, rb_set64_t *live) {
   __real_ldb_versions_add_files(vset, live);
-  if (gc_watch()) {
+  g_gc_phase = 0;
+  if (gc_watch() && !g_nogc) {
     rb_iter_t it; int first = 1;
-    printf("GC live=");
-    rb_set64_each(live, it) { printf("%s%llu", first ? "" : ",", (unsigned long long)rb_key_ui(it)); first = 0; }
-    if (first) printf(".");
-    printf(" log=%llu prev=%llu man=%llu", (unsigned long long)vset->log_number, (unsigned long long)vset->prev_log_number,
-           (unsigned long long)vset->manifest_file_number);
-    g_gc_phase = 1;
+    g_gc_len = 0;
+    gc_put("GC live=%.0llu", 0);
+    rb_set64_each(live, it) { gc_put(first ? "%llu" : ",%llu", (unsigned long long)rb_key_ui(it)); first = 0; }
+    if (first) gc_put(".%.0llu", 0);
+    gc_put(" log=%llu", (unsigned long long)vset->log_number);
+    gc_put(" prev=%llu", (unsigned long long)vset->prev_log_number);
+    gc_put(" man=%llu", (unsigned long long)vset->manifest_file_number);
+    g_gc_phase = 1;       /* the state is printed only if a directory listing follows (the collector; recovery lists first) */
   }
 }
 int __wrap_ldb_get_children(const char *path, char ***out) {
   int len = __real_ldb_get_children(path, out);
   if (g_gc_phase == 1) {
     int i; size_t j;
-    printf(" dir=");
+    printf("%s dir=", g_gc_buf);
     for (i = 0; i < len; i++) {
       const char *nm = (*out)[i];
       if (i) printf(",");
@@ -185,7 +194,6 @@ static int g_quiet_flag_ptr_is_zero(void) { return g_quiet == 0; }
 int __wrap_ldb_versions_apply(ldb_versions_t *vset, ldb_edit_t *edit, ldb_mutex_t *mu) {
   rb_iter_t it; size_t i; int rc; int first;
   uint64_t snap = vset->last_sequence;
-  if (g_gc_phase == 1) printf("\n");
   g_gc_phase = 0;
   static int noedit = -1;
   if (noedit < 0) noedit = getenv("K2_NOEDIT") != NULL;   /* threaded runs: the background thread's edits would interleave with RET lines */
@@ -375,7 +383,6 @@ int main(int argc, char **argv) {
   while (getline(&line, &cap, stdin) > 0) {
     int n = split_line(line, a, 16);
     if (n == 0) continue;
-    if (g_gc_phase == 1) printf("\n");
     g_gc_phase = 0;
     printf("CALL %ld %s\n", callno, a[0]);
     k3_mark('A', callno, a[0]);
